@@ -185,7 +185,7 @@ func runCloseSyncer(c CloseCase, cs *kit.CaseStats) error {
 	defer node.Close()
 	genesisID := node.Tree.Genesis.ID()
 	gate := p2px.NewGate()
-	srv, err := p2px.StartSyncer(node, p2px.NodeConfig{Name: "srv", IP: "127.0.0.1", UID: p2px.DetUniqueID("close-srv"), Gate: gate,
+	srv, err := p2px.StartSyncer(node, p2px.NodeConfig{Name: "srv", IP: p2px.ListenIP(0), UID: p2px.DetUniqueID("close-srv"), Gate: gate,
 		KeysFor: func(peer int) []string { return []string{fmt.Sprintf("peer:%d", peer)} },
 		Opts: []syncer.Option{syncer.WithSyncInterval(3 * time.Millisecond), syncer.WithPeerDiscoveryInterval(2 * time.Millisecond),
 			syncer.WithMaxInflightRPCs(8), syncer.WithMaxInboundPeers(32), syncer.WithMaxOutboundPeers(8)}})
@@ -214,7 +214,7 @@ func runCloseSyncer(c CloseCase, cs *kit.CaseStats) error {
 		conns = append(conns, conn)
 	}
 	// one listening peer the syncer is connected out to
-	out, err := quietListener(genesisID, "127.70.1.1", p2px.DetUniqueID("close-out"))
+	out, err := quietListener(genesisID, p2px.ListenIP(1), p2px.DetUniqueID("close-out"))
 	if err != nil {
 		return fmt.Errorf("INFRA: %v", err)
 	}
@@ -245,7 +245,7 @@ func runCloseSyncer(c CloseCase, cs *kit.CaseStats) error {
 	nr := c.Idle + c.Connects
 	var listeners []*p2px.GWPeer
 	for i := 0; i < c.Connects; i++ {
-		l, err := quietListener(genesisID, fmt.Sprintf("127.70.2.%d", 1+i), p2px.DetUniqueID("close-conn", i))
+		l, err := quietListener(genesisID, p2px.ListenIP(10+i), p2px.DetUniqueID("close-conn", i))
 		if err != nil {
 			return fmt.Errorf("INFRA: %v", err)
 		}
